@@ -160,7 +160,8 @@ class App(Application):
         base = self.problem.split('-')[0]
         if base == 'approach':
             return self.create_approach()
-        n = 8
+        # 'free': 144 particles (several chunks of the OpenMP schedule)
+        n = 12 if base == 'free' else 8
         xs, ys = np.mgrid[0:n, 0:n]
         x = xs.ravel().astype(float) + 0.5
         y = ys.ravel().astype(float) + 0.5
